@@ -2340,9 +2340,12 @@ public:
     SBEPP_CPP20_CONSTEXPR std::size_t operator()(size_bytes_tag) const noexcept
     {
         auto dimension = (*this)(get_header_tag{});
+        // multiply in `std::size_t`: the operands are promoted to `int` or
+        // `unsigned int` otherwise and the product overflows for large groups
         return sbepp::size_bytes(dimension)
-               + dimension.numInGroup().value()
-                     * dimension.blockLength().value();
+               + static_cast<std::size_t>(dimension.numInGroup().value())
+                     * static_cast<std::size_t>(
+                         dimension.blockLength().value());
     }
 
     //! @brief Returns header's `numInGroup`
